@@ -68,7 +68,8 @@ def passLoop (lines : List Line) : Nat → Nat → Nat → Outcome (List Line ×
         match indentC line with
         | .ok indent =>
           let trimmed := trim line
-          let plain : Outcome (List Line × List Nat × Nat) :=
+          -- (a function, so that the plain continuation is only evaluated where it is taken)
+          let plain : Unit → Outcome (List Line × List Nat × Nat) := fun _ =>
             (passLoop lines fuel (i + 1) budget).map fun r => (line :: r.1, i :: r.2.1, r.2.2)
           if indent = 0 ∧ isDeclFor trimmed then
             match parseForRange trimmed with
@@ -88,8 +89,8 @@ def passLoop (lines : List Line) : Nat → Nat → Nat → Outcome (List Line ×
                   | .panic w => .panic w
                 | .err k => .err k
                 | .panic w => .panic w
-            | none => plain
-          else plain
+            | none => plain ()
+          else plain ()
         | .err k => .err k
         | .panic w => .panic w
       | .err k => .err k
@@ -109,7 +110,7 @@ def passesC : Nat → Nat → Text → List Nat → Outcome (Text × List Nat)
     | .ok (e, from_, b') =>
       if e = r then .ok (r, o)
       else if n = 0 then .err "passes"
-      else passesC n b' e (from_.map fun i => (o[i]?).getD 0)
+      else passesC n b' e (let oa := o.toArray; from_.map fun i => (oa[i]?).getD 0)
     | .err k => .err k
     | .panic w => .panic w
 
